@@ -59,7 +59,7 @@ static int do_crypt(int fam, int dec, unsigned char *out, size_t *outlen, const 
     memset(c->kobj, 0, KOBJ); memcpy(c->kobj, kobj, ksz < KOBJ ? ksz : KOBJ);
     memcpy(c->npub, npub, 16);
     CHECK(inlen <= ML + 16 && adlen <= AL, "lengths forwarded unchanged"); ASSUME(inlen <= ML + 16 && adlen <= AL);
-    memcpy(c->data, in, inlen); c->len = inlen; memcpy(c->ad, ad, adlen); c->adlen = adlen;
+    if (inlen) memcpy(c->data, in, inlen); c->len = inlen; if (adlen) memcpy(c->ad, ad, adlen); c->adlen = adlen;
     n = dec ? (inlen >= 16 ? inlen - 16 : 0) : inlen + 16;
     for (i = 0; i < n; ++i) { c->out[i] = nondet_uchar(); out[i] = c->out[i]; }
     *outlen = n;
